@@ -13,10 +13,10 @@ META = dict(
     property="C40",
     level="exploration",
     technique="Hypothesis bodies/read sizes/network cuts + complete small-scope enumeration, end-to-end SMTPClient<->ESMTP in memory, oracle = the body's own lines",
-    level_text="Every generated body (1-2 messages per connection, lines rich in '.', '..', '.x', empty and command-like lines) is sent by a real SMTPClient/ESMTPClient to a real ESMTP server over a harness-owned wire (generated read sizes of the message file, generated producer bursts, generated segmentation of the client->server stream); the IMessage's lines, the number of messages, the server's command log and the client's sentMail results are compared with what the body dictates. All bodies of <=3 lines over a 6-line alphabet x 4 read modes are enumerated completely; larger ones are sampled.",
-    level_note="Trusted: twisted.test.iosim.FakeTransport as a byte queue (the harness pumps it itself), the recording IMessage/IMessageDelivery doubles, the two-line model of the server's documented blank-line insertion. Bodies are LF-terminated lines without CR, at least one line, lines < 1000 octets. Not covered: TLS/AUTH, server-side failures (datafailed), lines longer than the server limit.",
+    level_text="Every generated body (1-3 messages per connection, lines rich in '.', '..', '.x', empty and command-like lines) is sent by a real SMTPClient/ESMTPClient to a real ESMTP server over a harness-owned wire (generated read sizes of the message file, generated producer bursts, generated segmentation of the client->server stream); an earlier message may be refused by its server-side IMessage (SMTPServerError at its n-th line: the documented refusal path) and the server's clock may advance between deliveries with an idle timeout larger than any gap between lines; the IMessage's lines, the number of messages, the server's command log and the client's sentMail results are compared with what the body dictates. All bodies of <=3 lines over a 6-line alphabet x 4 read modes are enumerated completely; larger ones are sampled.",
+    level_note="Trusted: twisted.test.iosim.FakeTransport as a byte queue (the harness pumps it itself), the recording IMessage/IMessageDelivery doubles, the two-line model of the server's documented blank-line insertion. Bodies are LF-terminated lines without CR, at least one line, lines < 1000 octets. For a refused message only the lines before the refusal, the command log and the session's continuation are judged. Not covered: TLS/AUTH, lines longer than the server limit.",
     design_ref="§5 C40",
-    rule="case = {bodies: [[line,...],...], reads: [sizes] ([]=full reads), net: [segment sizes] ([]=whole), burst, rcvd, fill (64-byte filler lines put in front so that real 16 KiB reads hit a boundary), client}. non-trivial = some body line starts with '.'; distinct by the whole case. Class counters say where dot-lines fell (message start / read-chunk start / mid chunk).",
+    rule="case = {bodies: [[line,...],...], reads: [sizes] ([]=full reads), net: [segment sizes] ([]=whole), burst, rcvd, fill (64-byte filler lines put in front so that real 16 KiB reads hit a boundary), client, refuse: [n|None per message], dt (server seconds per delivery)}. non-trivial = some body line starts with '.', or a message is refused, or the link is slow; distinct by the whole case. Class counters say where dot-lines fell (message start / read-chunk start / mid chunk).",
 )
 
 FILL_LINE = b"f" * 63  # + LF = 64 octets; 256 of them = FileSender.CHUNK_SIZE
@@ -56,12 +56,21 @@ def _build(case):
 
     @implementer(smtp.IMessage)
     class Msg:
-        def __init__(self):
+        def __init__(self, refuse_at):
             self.lines = []
             self.eom = 0
             self.lost = 0
+            self.calls = 0
+            self.refuse_at = refuse_at
+            self.refused = False
 
         def lineReceived(self, line):
+            n = self.calls
+            self.calls += 1
+            if n == self.refuse_at:
+                # the documented way for a message object to refuse a body
+                self.refused = True
+                raise smtp.SMTPServerError(550, b"refused by the harness")
             self.lines.append(line)
 
         def eomReceived(self):
@@ -76,6 +85,7 @@ def _build(case):
         def __init__(self, rcvd):
             self.msgs = []
             self.rcvd = rcvd
+            self.refuse = list(case.get("refuse") or [])
 
         def receivedHeader(self, helo, origin, recipients):
             return b"Received: by harness" if self.rcvd else None
@@ -85,7 +95,8 @@ def _build(case):
 
         def validateTo(self, user):
             def make():
-                m = Msg()
+                k = len(self.msgs)
+                m = Msg(self.refuse[k] if k < len(self.refuse) else None)
                 self.msgs.append(m)
                 return m
             return make
@@ -102,13 +113,14 @@ def _build(case):
             self.cmds.append(line)
             return smtp.ESMTP.state_COMMAND(self, line)
 
-    files = []
+    files = {}
 
     class Mixin:
         debug = False
 
         def getMailFrom(self):
-            if self.h_next >= len(self.h_bodies):
+            self.h_cur += 1
+            if self.h_cur >= len(self.h_bodies):
                 return None
             return b"from@example.com"
 
@@ -116,9 +128,8 @@ def _build(case):
             return [b"to@example.com"]
 
         def getMailData(self):
-            f = _ShortReadFile(self.h_bodies[self.h_next], case["reads"])
-            self.h_next += 1
-            files.append(f)
+            f = _ShortReadFile(self.h_bodies[self.h_cur], case["reads"])
+            files[self.h_cur] = f
             return f
 
         def sentMail(self, code, resp, numOk, addresses, log):
@@ -137,10 +148,20 @@ def _build(case):
         pre = [FILL_LINE] * case["fill"] if i == 0 else []
         datas.append(b"".join(l + b"\n" for l in pre + list(lines)))
     c.h_bodies = datas
-    c.h_next = 0
+    c.h_cur = -1
     c.h_sent = []
     s = Server(case["rcvd"])
+    dt = case.get("dt") or 0
+    if dt:
+        # idle timeout strictly larger than any gap between two lines the
+        # server can see: a wire line of W octets needs at most W pump
+        # iterations (every iteration reads >= 1 octet of the file)
+        wmax = max(len(l) for b in case["bodies"] for l in b) + 3
+        if case["fill"]:
+            wmax = max(wmax, 66)
+        s.timeout = dt * (wmax + 4)
     clock = task.Clock()
+    s.h_clock = clock
     s.callLater = clock.callLater
     c.callLater = clock.callLater
     from twisted.internet.address import IPv4Address
@@ -154,8 +175,12 @@ def _pump(s, c, stp, ctp, case, total):
     """Harness-owned wire: runs until nothing moves."""
     from twisted.internet import error
     from twisted.python.failure import Failure
+    from twisted.mail import smtp
     net = case["net"]
     ni = 0
+    dt = case.get("dt") or 0
+    s.h_out = []
+    s.h_data_iters = 0
     s.makeConnection(stp)
     c.makeConnection(ctp)
     try:
@@ -178,9 +203,14 @@ def _pump(s, c, stp, ctp, case, total):
             sdata = stp.getOutBuffer()
             if sdata:
                 moved = True
+                s.h_out.append(sdata)
                 c.dataReceived(sdata)
             if not moved:
                 break
+            if dt:
+                if s.mode == smtp.DATA:
+                    s.h_data_iters += 1
+                s.h_clock.advance(dt)
         else:
             return "no-quiescence"
         return "closed" if (stp.disconnecting and ctp.disconnecting) else "idle-open"
@@ -222,9 +252,12 @@ def run_case(ctx, case):
 
     # ---- bookkeeping (before any verdict, so forgiven cases are counted too)
     fill = case["fill"]
+    refuse = list(case.get("refuse") or [])
+    refuse += [None] * (len(bodies) - len(refuse))
+    dt = case.get("dt") or 0
     has_dot = False
     for i, lines in enumerate(bodies):
-        starts = set(files[i].starts) if i < len(files) else set()
+        starts = set(files[i].starts) if i in files else set()
         off = fill * 64 if i == 0 else 0
         for j, l in enumerate(lines):
             if l[:1] == b".":
@@ -238,9 +271,15 @@ def run_case(ctx, case):
                 if l == b".":
                     ctx.count("line is exactly '.'")
             off += len(l) + 1
-    if has_dot:
+    # which messages does the server-side IMessage really refuse, and where
+    refused = []
+    for i, lines in enumerate(bodies):
+        pre = [FILL_LINE] * fill if i == 0 else []
+        v0 = _expected_variants(pre + lines, case["rcvd"])[0]
+        refused.append(refuse[i] is not None and refuse[i] < len(v0))
+    if has_dot or any(refused) or dt:
         ctx.nontrivial(case)
-        ctx.count("nontrivial (has a dot-line)")
+        ctx.count("nontrivial (dot-line, refusal history or slow link)")
     ctx.count("messages per connection = %d" % len(bodies))
     ctx.count("client=" + case["client"])
     if case["reads"]:
@@ -249,8 +288,24 @@ def run_case(ctx, case):
         ctx.count("segmented network")
     if fill:
         ctx.count("16 KiB real read boundary")
+    for i in range(len(bodies)):
+        if refused[i]:
+            if case["rcvd"] and refuse[i] == 0:
+                ctx.count("message refused at DATA (its Received header was refused)")
+            else:
+                ctx.count("message refused mid-body by the server-side IMessage")
+        elif any(refused[:i]):
+            ctx.count("valid message sent after a refused one on the same connection")
+    if dt:
+        ctx.count("slow link (server clock advances between deliveries)")
+        if s.h_data_iters * dt > s.timeout:
+            ctx.count("slow link: DATA phase lasted longer than the server's idle timeout")
 
     # ---- oracle
+    if dt and any(chunk.startswith(b"421") or b"\r\n421" in chunk for chunk in s.h_out):
+        ctx.violation("server-idle-timeout-while-client-kept-sending", case,
+                      f"server timeout {s.timeout}s, {dt}s per delivery, {s.h_data_iters} deliveries in DATA mode; "
+                      f"server said {b''.join(s.h_out)[-120:]!r}")
     msgs = s.delivery.msgs
     for i, lines in enumerate(bodies):
         if i >= len(msgs):
@@ -260,21 +315,25 @@ def run_case(ctx, case):
         full = pre + lines
         got = msgs[i].lines
         variants = _expected_variants(full, case["rcvd"])
-        if got in variants:
+        # a refusing IMessage keeps exactly the lines before the refused call
+        cands = [v[:refuse[i]] if (refuse[i] is not None and refuse[i] < len(v)) else v for v in variants]
+        if got in cands:
             continue
-        exp = variants[0]
+        exp = cands[0]
         k = 0
         while k < len(got) and k < len(exp) and got[k] == exp[k]:
             k += 1
-        j = k - (len(exp) - len(full))       # index into the body's lines
+        j = k - (len(variants[0]) - len(full))       # index into the body's lines
         if k == len(got) and j < 0:
             # nothing arrived at all: the inserted separator only appears
             # together with the first body line, so that line is the culprit
             j = 0
-        starts_i = files[i].starts if i < len(files) else []
+        starts_i = files[i].starts if i in files else []
         detail = (f"message {i}: first difference at received line {k} (body line {j}): "
                   f"expected {exp[k:k + 3]!r} got {got[k:k + 3]!r}; reads={case['reads']!r}; "
-                  f"read starts={starts_i[:20]!r}; server commands={s.cmds!r}")
+                  f"read starts={starts_i[:20]!r}; refuse={refuse!r}; server commands={s.cmds!r}")
+        if any(refused[:i]) and not refused[i]:
+            ctx.violation("message-after-refused-one-damaged", case, detail)
         if 0 <= j < len(full) and full[j][:1] == b".":
             offset = sum(len(l) + 1 for l in full[:j])
             lost_dot = (k < len(got) and got[k] == full[j][1:]) or (full[j] == b"." and k == len(got))
@@ -294,6 +353,10 @@ def run_case(ctx, case):
     if len(msgs) != len(bodies):
         ctx.violation("extra-message", case, f"{len(msgs)} messages for {len(bodies)} bodies")
     for i, m in enumerate(msgs):
+        if refused[i]:
+            if not m.refused:
+                ctx.violation("harness-refusal-not-reached", case, f"message {i}")
+            continue
         if m.eom != 1 or m.lost != 0:
             ctx.violation("message-end-events", case, f"message {i}: eomReceived x{m.eom}, connectionLost x{m.lost}")
     hello = b"EHLO" if case["client"] == "esmtp" else b"HELO"
@@ -301,8 +364,10 @@ def run_case(ctx, case):
     verbs = [_verb(l) for l in s.cmds]
     if verbs != want:
         ctx.violation("server-command-log", case, f"server saw commands {s.cmds!r}, expected verbs {want!r}")
-    if c.h_sent != [(250, 1)] * len(bodies):
-        ctx.violation("client-sentMail-result", case, f"sentMail calls {c.h_sent!r}")
+    ok_sent = len(c.h_sent) == len(bodies) and all(
+        c.h_sent[i] == (250, 1) for i in range(len(bodies)) if not refused[i])
+    if not ok_sent:
+        ctx.violation("client-sentMail-result", case, f"sentMail calls {c.h_sent!r}; refused={refused!r}")
     if end != "closed":
         ctx.violation("session-not-closed", case, end)
     ctx.count("cases checked to the end (not forgiven)")
@@ -327,6 +392,32 @@ def _small_cases():
                            fill=0, client="smtp")
 
 
+def _small_history_cases():
+    """Two messages on one connection; the first one is refused by its
+    IMessage at its 0th/1st/2nd lineReceived call (incl. the Received header)."""
+    import itertools
+    firsts = [list(t) for n in (1, 2) for t in itertools.product(SMALL_ALPHABET, repeat=n)]
+    for first in firsts:
+        for at in (0, 1, 2):
+            for second in SMALL_ALPHABET:
+                for reads, rcvd in (([], False), ([1], True)):
+                    yield dict(bodies=[first, [second]], refuse=[at, None], reads=reads, net=[], burst=1,
+                               rcvd=rcvd, fill=0, client="smtp", dt=0)
+
+
+def _small_slow_cases():
+    """Bodies of 2-3 lines read 1-2 octets at a time while the server's clock
+    advances between deliveries (its idle timeout is larger than any gap
+    between lines, smaller than the whole transfer)."""
+    import itertools
+    for n, readset in ((2, ([1], [2])), (3, ([1],))):
+        for lines in itertools.product(SMALL_ALPHABET, repeat=n):
+            for reads in readset:
+                # repeated three times so the transfer outlasts the timeout
+                yield dict(bodies=[list(lines) * 3], refuse=[None], reads=reads, net=[], burst=1, rcvd=False,
+                           fill=0, client="smtp", dt=1.0)
+
+
 LINE = st.one_of(
     st.sampled_from([b".", b"..", b".x", b"...", b". ", b".\t.", b"", b"", b"x", b"a.b", b" .",
                      b"Subject: hi", b".h: v", b"QUIT", b"RSET", b"DATA", b".QUIT",
@@ -338,7 +429,7 @@ LINE = st.one_of(
 
 @st.composite
 def cases(draw):
-    nb = draw(st.sampled_from([1, 1, 2]))
+    nb = draw(st.sampled_from([1, 1, 2, 2, 3]))
     bodies = [draw(st.lists(LINE, min_size=1, max_size=8)) for _ in range(nb)]
     # half of the cases keep dot-lines away from the places where the listed
     # finding strikes (message start; mostly whole-file reads), so that the
@@ -356,7 +447,13 @@ def cases(draw):
     net = draw(st.one_of(st.just([]), st.just([1]),
                          st.lists(st.integers(1, 24), min_size=1, max_size=5)))
     fill = draw(st.sampled_from([0] * 15 + [256]))
-    return dict(bodies=bodies, reads=reads, net=net,
+    # history: an earlier message may be refused by its IMessage (at its n-th line)
+    refuse = [draw(st.sampled_from([None, None, None, 0, 1, 2, 3, 5])) for _ in range(nb)]
+    # schedule: server time passing between deliveries
+    dt = draw(st.sampled_from([0, 0, 0, 1.0, 7.5])) if not fill else 0
+    if dt and draw(st.booleans()):
+        reads = draw(st.sampled_from([[1], [2], [1, 3]]))    # long transfers, short gaps
+    return dict(bodies=bodies, reads=reads, net=net, refuse=refuse, dt=dt,
                 burst=draw(st.integers(1, 4)), rcvd=draw(st.booleans()),
                 fill=fill, client=draw(st.sampled_from(["smtp", "smtp", "esmtp"])))
 
@@ -367,8 +464,13 @@ def _hyp_shard(sub, i):
 
 def run(ctx):
     enumerate_run(ctx, _small_cases(), run_case)
-    ctx.extra["exhaustive_small_scope"] = "all bodies of 1..3 lines over %r x reads in %r" % (
-        SMALL_ALPHABET, SMALL_READS)
+    if not ctx.has_violation():
+        enumerate_run(ctx, _small_history_cases(), run_case)
+    if not ctx.has_violation():
+        enumerate_run(ctx, _small_slow_cases(), run_case)
+    ctx.extra["exhaustive_small_scope"] = ("all bodies of 1..3 lines over %r x reads in %r; all pairs (refused first message "
+                                           "of 1..2 lines refused at call 0/1/2, second message of 1 line); all bodies of 2..3 lines "
+                                           "read 1-2 octets at a time on a slow link" % (SMALL_ALPHABET, SMALL_READS))
     ctx.exhaustive = False
     if ctx.has_violation():
         return
